@@ -83,6 +83,24 @@ func emitCardEnc(o *Out, q *carddav.AddressBookQuery) {
 }
 
 // the RFC 6352 document of a query, from the independent writer
+// values outside the RFC enumerations, in turn: unknown words, case variants, padded spellings (XML attribute values are
+// case-sensitive and the DTD lists the values literally)
+var badPick int
+
+func badValue(kind string) string {
+	badPick++
+	var l []string
+	switch kind {
+	case "test":
+		l = []string{"oneof", "ANYOF", "AnyOf", "any of", " anyof", "allOf"}
+	case "match-type":
+		l = []string{"regex", "Equals", "CONTAINS", "starts_with", "equals ", "Starts-With"}
+	default:
+		l = []string{"true", "YES", "Yes", "No", "nO", "1", "yes ", "NO"}
+	}
+	return l[badPick%len(l)]
+}
+
 func cardQueryDoc(q *carddav.AddressBookQuery, mut string) *wEl {
 	// "limit-zero+<defect>": a document with nresults 0 AND another defect - the defect must still be refused
 	if strings.HasPrefix(mut, "limit-zero+") {
@@ -157,13 +175,13 @@ func cardQueryDoc(q *carddav.AddressBookQuery, mut string) *wEl {
 	}
 	switch mut {
 	case "bad-test":
-		f.attrs = [][2]string{{"test", "oneof"}}
+		f.attrs = [][2]string{{"test", badValue("test")}}
 	case "empty-test":
 		f.attrs = [][2]string{{"test", ""}}
 	case "bad-match-type":
-		root.children[1].Add(E(nsCard, "prop-filter", E(nsCard, "text-match").T("x").A("match-type", "regex")).A("name", "FN"))
+		root.children[1].Add(E(nsCard, "prop-filter", E(nsCard, "text-match").T("x").A("match-type", badValue("match-type"))).A("name", "FN"))
 	case "bad-negate":
-		root.children[1].Add(E(nsCard, "prop-filter", E(nsCard, "text-match").T("x").A("negate-condition", "true")).A("name", "FN"))
+		root.children[1].Add(E(nsCard, "prop-filter", E(nsCard, "text-match").T("x").A("negate-condition", badValue("negate"))).A("name", "FN"))
 	case "ind-with-match":
 		root.children[1].Add(E(nsCard, "prop-filter", E(nsCard, "is-not-defined"), E(nsCard, "text-match").T("x")).A("name", "FN"))
 	case "param-ind-with-match":
